@@ -9,7 +9,10 @@ import (
 	"strings"
 	"time"
 
+	"math/rand/v2"
+
 	"verif/ev"
+	"verif/goosegen"
 	"verif/tlc"
 	"verif/vparse"
 )
@@ -21,7 +24,9 @@ type c04Decl struct {
 	name string // Go name (method: method name)
 	recv int    // method: index of its struct
 	refs []c04Ref
-	self bool // a function that calls itself
+	self bool // a function or method that calls itself
+	extra string // const: second name declared by the same spec (const A, B uint64 = ...)
+	ptrRecv bool // method on a named integer type: pointer receiver
 }
 type c04Ref struct {
 	to   int
@@ -39,9 +44,9 @@ func (d c04Decl) coqName(all []c04Decl) string {
 var c04BodyRefs = map[string][]string{
 	"func":   {"call"},
 	"method": {"method-call"},
-	"struct": {"literal", "ptr-literal", "var-decl", "new", "field-select", "make-slice", "param"},
-	"named":  {"var-decl", "conversion", "make-slice", "param"},
-	"const":  {"expr"},
+	"struct": {"literal", "ptr-literal", "var-decl", "new", "field-select", "make-slice", "param", "ptr-param-deref", "ptr-param-field"},
+	"named":  {"var-decl", "conversion", "make-slice", "param", "ptr-param-deref", "ptr-param-store"},
+	"const":  {"expr", "expr-second"},
 }
 var c04StructRefs = map[string][]string{"struct": {"field-value", "field-slice", "field-map"}, "named": {"field-value", "field-slice"}}
 
@@ -55,7 +60,32 @@ func c04Render(ds []c04Decl, i int) string {
 		case "call":
 			body = append(body, fmt.Sprintf("_ = %s()", t.name))
 		case "method-call":
-			body = append(body, fmt.Sprintf("%s := &%s{}", v, ds[t.recv].name), fmt.Sprintf("_ = %s.%s()", v, t.name))
+			if ds[t.recv].kind == "named" {
+				body = append(body, fmt.Sprintf("%s := new(%s)", v, ds[t.recv].name))
+				if t.ptrRecv {
+					body = append(body, fmt.Sprintf("_ = %s.%s()", v, t.name))
+				} else {
+					body = append(body, fmt.Sprintf("_ = (*%s).%s()", v, t.name))
+				}
+			} else {
+				body = append(body, fmt.Sprintf("%s := &%s{}", v, ds[t.recv].name), fmt.Sprintf("_ = %s.%s()", v, t.name))
+			}
+		case "ptr-param-deref":
+			// the type is reached only through the type of *x (the parameter itself is a plain pointer)
+			params = append(params, fmt.Sprintf("%s *%s", v, t.name))
+			body = append(body, fmt.Sprintf("%sv := *%s", v, v), fmt.Sprintf("_ = %sv", v))
+		case "ptr-param-store":
+			params = append(params, fmt.Sprintf("%s *%s", v, t.name))
+			body = append(body, fmt.Sprintf("*%s = *%s + 1", v, v))
+		case "ptr-param-field":
+			params = append(params, fmt.Sprintf("%s *%s", v, t.name))
+			body = append(body, fmt.Sprintf("%s.a = %s.a + 1", v, v))
+		case "expr-second":
+			if t.extra != "" {
+				body = append(body, fmt.Sprintf("_ = %s + 2", t.extra))
+			} else {
+				body = append(body, fmt.Sprintf("_ = %s + 2", t.name))
+			}
 		case "literal":
 			body = append(body, fmt.Sprintf("_ = %s{}", t.name))
 		case "ptr-literal":
@@ -79,10 +109,23 @@ func c04Render(ds []c04Decl, i int) string {
 	if d.self && d.kind == "func" && len(params) == 0 {
 		body = append(body, fmt.Sprintf("_ = %s()", d.name))
 	}
+	if d.self && d.kind == "method" && len(params) == 0 {
+		if ds[d.recv].kind == "named" && !d.ptrRecv {
+			body = append(body, fmt.Sprintf("_ = (r / 2).%s()", d.name))
+		} else {
+			body = append(body, fmt.Sprintf("_ = r.%s()", d.name))
+		}
+	}
 	switch d.kind {
 	case "func":
 		return fmt.Sprintf("func %s(%s) uint64 {\n\t%s\n\treturn 1\n}\n", d.name, strings.Join(params, ", "), strings.Join(append(body, "_ = uint64(0)"), "\n\t"))
 	case "method":
+		if ds[d.recv].kind == "named" {
+			if d.ptrRecv {
+				return fmt.Sprintf("func (r *%s) %s(%s) uint64 {\n\t%s\n\treturn uint64(*r)\n}\n", ds[d.recv].name, d.name, strings.Join(params, ", "), strings.Join(append(body, "_ = uint64(0)"), "\n\t"))
+			}
+			return fmt.Sprintf("func (r %s) %s(%s) uint64 {\n\t%s\n\treturn uint64(r)\n}\n", ds[d.recv].name, d.name, strings.Join(params, ", "), strings.Join(append(body, "_ = uint64(0)"), "\n\t"))
+		}
 		return fmt.Sprintf("func (r *%s) %s(%s) uint64 {\n\t%s\n\treturn r.a\n}\n", ds[d.recv].name, d.name, strings.Join(params, ", "), strings.Join(append(body, "_ = uint64(0)"), "\n\t"))
 	case "struct":
 		fs := []string{"a uint64"}
@@ -104,6 +147,9 @@ func c04Render(ds []c04Decl, i int) string {
 		e := "7"
 		for _, r := range d.refs {
 			e += " + " + ds[r.to].name
+		}
+		if d.extra != "" {
+			return fmt.Sprintf("const %s, %s uint64 = %s, 9\n", d.name, d.extra, e)
 		}
 		return fmt.Sprintf("const %s uint64 = %s\n", d.name, e)
 	}
@@ -155,7 +201,7 @@ func C04(c *ev.Ctx) {
 	var infos []pkgInfo
 	kinds := []string{"func", "func", "struct", "named", "const", "method"}
 	for p := 0; p < npk; p++ {
-		n := 3 + rr.IntN(3)
+		n := 3 + rr.IntN(4)
 		var ds []c04Decl
 		// topological construction: decl i may reference decls j < i (then the order is scrambled)
 		for i := 0; i < n; i++ {
@@ -169,7 +215,7 @@ func C04(c *ev.Ctx) {
 			if d.kind == "method" {
 				var ss []int
 				for j := 0; j < i; j++ {
-					if ds[j].kind == "struct" {
+					if ds[j].kind == "struct" || ds[j].kind == "named" {
 						ss = append(ss, j)
 					}
 				}
@@ -177,7 +223,11 @@ func C04(c *ev.Ctx) {
 					d.kind, d.name = "struct", fmt.Sprintf("S%d", i)
 				} else {
 					d.recv = ss[rr.IntN(len(ss))]
+					d.ptrRecv = rr.IntN(2) == 0
 				}
+			}
+			if d.kind == "const" && rr.IntN(3) == 0 {
+				d.extra = d.name + "b"
 			}
 			for j := 0; j < i; j++ {
 				if rr.IntN(100) >= 55 {
@@ -199,7 +249,7 @@ func C04(c *ev.Ctx) {
 				}
 				d.refs = append(d.refs, c04Ref{to: j, kind: opts[(p+j+rr.IntN(len(opts)))%len(opts)]})
 			}
-			d.self = d.kind == "func" && rr.IntN(4) == 0
+			d.self = (d.kind == "func" || d.kind == "method") && rr.IntN(4) == 0
 			ds = append(ds, d)
 		}
 		// scramble the order and split into files
@@ -263,6 +313,9 @@ func C04(c *ev.Ctx) {
 		var want []string
 		for _, d := range pi.decls {
 			want = append(want, d.coqName(pi.decls))
+			if d.extra != "" {
+				want = append(want, d.extra)
+			}
 		}
 		sort.Strings(want)
 		got := append([]string{}, order...)
@@ -319,6 +372,9 @@ func C04(c *ev.Ctx) {
 			break
 		}
 	}
+	// ---- rich generated packages (goosegen): declarations shuffled and split over files ----
+	gchecked := c04Rich(c, rr)
+	c.Set("rich_packages_checked", gchecked)
 	c.AddTraces(checked)
 	c.Set("packages_checked", checked)
 	c.Set("evaluations", checked)
@@ -331,4 +387,135 @@ func C04(c *ev.Ctx) {
 		}
 		c.Sample(map[string]any{"package": srcAll, "emitted": gout.files["d0"]})
 	}
+}
+
+// c04Rich: full-featured generated packages (every construct of the C01 generator), declarations in random order and
+// split over 1-3 files with scrambled names. Mentions inside a dependency cycle (mutual recursion) are exempt.
+func c04Rich(c *ev.Ctx, rr *rand.Rand) int {
+	npk := c.Pick(30, 400)
+	m, err := newGenModule(c, "mod-c04r")
+	if err != nil {
+		c.Inconclusive("module: %v", err)
+		return 0
+	}
+	defer os.RemoveAll(m.dir)
+	srcs := map[string]string{}
+	for p := 0; p < npk; p++ {
+		gp := goosegen.Generate(goosegen.Options{Seed: uint64(c.Seed)*99991 + uint64(p), Funcs: 3 + p%4, Entries: 3})
+		parts := strings.Split(strings.TrimSpace(gp.Source), "\n\n")
+		// parts[0] = package clause, optional import, then one declaration per part
+		var decls []string
+		for _, pt := range parts[1:] {
+			if strings.HasPrefix(pt, "import ") {
+				continue
+			}
+			decls = append(decls, pt)
+		}
+		rr.Shuffle(len(decls), func(i, j int) { decls[i], decls[j] = decls[j], decls[i] })
+		nf := 1 + rr.IntN(3)
+		fnames := [][]string{{"a.go"}, {"n.go", "b.go"}, {"m.go", "z.go", "c.go"}}[nf-1]
+		per := map[string][]string{}
+		for _, d := range decls {
+			f := fnames[rr.IntN(len(fnames))]
+			per[f] = append(per[f], d)
+		}
+		name := fmt.Sprintf("r%d", p)
+		dir := filepath.Join(m.dir, name)
+		_ = os.MkdirAll(dir, 0755)
+		all := ""
+		for _, f := range fnames {
+			body := strings.Join(per[f], "\n\n") + "\n"
+			txt := "package gen\n\n"
+			if strings.Contains(body, "machine.") {
+				txt += "import \"github.com/goose-lang/goose/machine\"\n\n"
+			}
+			txt += body
+			_ = os.WriteFile(filepath.Join(dir, f), []byte(txt), 0644)
+			all += "// " + f + "\n" + txt + "\n"
+		}
+		srcs[name] = all
+		m.pkgs = append(m.pkgs, name)
+	}
+	gout := m.runGoose(c, "-ignore-errors")
+	if gout.exit == 2 || strings.Contains(gout.stderr, "goroutine ") {
+		c.Inconclusive("goose crashed on the rich C04 batch:\n%s", firstLines(gout.stderr, 12))
+		return 0
+	}
+	errs := errorLines(gout.stderr)
+	reDef := regexp.MustCompile(`(?m)^(?:Definition|Notation) ([A-Za-z0-9_']+)`)
+	checked := 0
+	for p := 0; p < npk; p++ {
+		name := fmt.Sprintf("r%d", p)
+		text, ok := gout.files[name]
+		if !ok || len(errs[name]) > 0 {
+			continue
+		}
+		files := map[string]string{"gen.go.txt": srcs[name], "emitted.v": text}
+		pos := map[string]int{}
+		dup := ""
+		var order []string
+		for i, mm := range reDef.FindAllStringSubmatch(text, -1) {
+			if _, seen := pos[mm[1]]; seen {
+				dup = mm[1]
+			}
+			pos[mm[1]] = i
+			order = append(order, mm[1])
+		}
+		if dup != "" {
+			c.Report("c04.names", fmt.Sprintf("package %s: %s is defined twice", name, dup), files)
+			continue
+		}
+		prog, perr := vparse.ParseFile(text)
+		if perr != nil {
+			c.Inconclusive("emitted file of %s does not parse: %v", name, perr)
+			continue
+		}
+		checked++
+		// mention graph and its cycles
+		ment := map[string]map[string]bool{}
+		for _, d := range prog.Decls {
+			if d.Body == nil {
+				continue
+			}
+			ment[d.Name] = map[string]bool{}
+			d.Body.Walk(func(n *vparse.Node) {
+				if n.Kind == "id" {
+					if _, isDef := pos[n.Name]; isDef {
+						ment[d.Name][n.Name] = true
+					}
+				}
+			})
+		}
+		var reach func(from, to string, seen map[string]bool) bool
+		reach = func(from, to string, seen map[string]bool) bool {
+			if from == to {
+				return true
+			}
+			if seen[from] {
+				return false
+			}
+			seen[from] = true
+			for k := range ment[from] {
+				if reach(k, to, seen) {
+					return true
+				}
+			}
+			return false
+		}
+		for dn, ms := range ment {
+			for mn := range ms {
+				if mn == dn {
+					c.Report("c04.self-call-global", fmt.Sprintf("package %s: Definition %s refers to itself as a global identifier instead of its recursive binder", name, dn), files)
+					continue
+				}
+				if pos[mn] > pos[dn] && !reach(mn, dn, map[string]bool{}) {
+					c.Report("c04.rich.use-before-def", fmt.Sprintf("package %s: Definition %s mentions %s, which is defined later (no dependency cycle between them)", name, dn, mn), files)
+				}
+			}
+		}
+		if c.NViolations() > 8 {
+			break
+		}
+	}
+	return checked
 }
